@@ -35,13 +35,19 @@ and `Ref.eval`/`Ref.runProgram` themselves:
                                   `obsOfVM (runText …) = obsOfRef (runProgram …)` and it is a value;
 * `compile_correct_on_F0c`      — `CompileCorrect` restricted to F0c, in its own vocabulary.
 
+* `segment_lemma_Fv`            — Stage C: the same for Fv = F0c + symbols + `def` + `set`, with the
+                                  simulation relation between VM scopes and reference frames;
+                                  values and errors;
+* `compile_correct_on_Fv`       — `CompileCorrect` restricted to Fv (values, errors, traces).
+
 `compile_correct_partial` (below) says what is proved of the semantic statement and names
-the unproved remainder (`CompileCorrectOutsideF0c`).
+the unproved remainder (`CompileCorrectOutsideFv`).
 -/
 import ZygoVerif.Model.Gen
 import ZygoVerif.Model.VM
 import ZygoVerif.Spec.RefEval
 import ZygoVerif.Proofs.SimF0cTop
+import ZygoVerif.Proofs.SimFvTop
 namespace ZygoVerif.C02
 open ZygoVerif.Core ZygoVerif.VM
 
@@ -405,39 +411,177 @@ example : ∃ code, VM.runText 141 demoF0c VM.initSt
 example : obsOfVM (VM.runText 141 demoF0c VM.initSt).1 = obsOfRef (Ref.runProgram 46 demoF0c Ref.initSt).1 :=
   (compile_correct_F0c demoF0c (by decide) 46 141 (by decide) (by decide)).1
 
+/-! ## Stage C — variables: symbols, `def`, `set` (fragment Fv ⊇ F0c)
+
+Expressions now have effects (on the scopes) and can fail (unbound symbol, re-binding with a
+different type). The segment lemma carries the simulation relation `Sim.Rel` between VM state
+and reference state: scope table and frame table hold the same bindings index by index, the
+linear scope stack is the static chain of the current environment, heaps and traces agree. -/
+
+/-- **Segment lemma for Fv**, spelled out. `Fv` = literals, symbols, `def`, `set`, non-empty
+`begin`, `cond`, `and`, `or`, nested arbitrarily. From related states, the VM standing on the
+first instruction of the code of `e` (embedded anywhere in a compiled function):
+* reference value `v`, new state `rs'` ⇒ within `code.length` instructions the VM arrives just
+  behind the code with exactly one more value `v` on the data stack, in the same function, and
+  its state is related to `rs'` (same effects on every scope);
+* reference error ⇒ within `code.length` instructions the enclosing `Run` returns a script
+  error, whatever control state it captured, and the trace is the reference trace;
+* the reference evaluator never yields `break`/`continue` for `e`. -/
+theorem segment_lemma_Fv (e : Expr) (he : Fv e = true) (isFn : Nat → Bool) (c : Ctx) (gs gs' : GS)
+    (code : List Instr) (t : Bool) (hc : (compile isFn c e).run gs = .ok ((code, t), gs'))
+    (s : St) (rs : Ref.St) (env : Nat) (pre post : List Instr) (hrel : Rel s rs env)
+    (huser : (fnOf s s.curfunc).user = false) (hcode : (fnOf s s.curfunc).code = pre ++ code ++ post)
+    (hpc : s.pc = (pre.length : Int)) (n : Nat) :
+    match Ref.eval n e env rs with
+    | .ok v rs' => ∃ s', Rel s' rs' env ∧ fnOf s' s'.curfunc = fnOf s s.curfunc
+        ∧ s'.pc = s.pc + (code.length : Int) ∧ s'.data = some v :: s.data
+        ∧ ∃ k, k ≤ code.length ∧ ∀ fuel, 1 ≤ fuel → ∀ st, (runLoop (fuel + k) st).run s = (runLoop fuel st).run s'
+    | .err rs' => ∃ k, k ≤ code.length ∧ ∀ fuel, 1 ≤ fuel → ∀ st,
+        ∃ sf, (runLoop (fuel + k) st).run s = (.error .err, sf) ∧ sf.trace = rs'.trace
+    | .timeout => True
+    | .brk _ _ => False
+    | .cont _ _ => False := by
+  have h := segment_Fv e he isFn c gs code t gs' hc s rs env pre post hrel ⟨huser, hcode, hpc⟩ n
+  cases hres : Ref.eval n e env rs with
+  | ok v rs' =>
+    rw [hres] at h
+    obtain ⟨s', r, l, rel⟩ := h
+    exact ⟨s', rel, l.fn, l.pc, l.data, r⟩
+  | err rs' => rw [hres] at h; exact h
+  | timeout => trivial
+  | brk l rs' => rw [hres] at h; exact h
+  | cont l rs' => rw [hres] at h; exact h
+
+/-- the initial states of the two sides are related -/
+theorem rel_init : Rel VM.initSt Ref.initSt 0 := rel_initSt
+
+/-- **`CompileCorrect` for the fragment Fv**: whenever the reference evaluator reports an
+outcome — a value or an error, with its trace — for a program whose top-level forms are in Fv,
+the VM model (generator + VM, `LoadExpressions` + `Run`) reports the same outcome. -/
+theorem compile_correct_on_Fv : CompileCorrectOn (fun p => FvList p = true) := by
+  intro p hp hwf fuel o ho
+  cases p with
+  | nil => exact compile_correct_on_F0c [] rfl hwf fuel o ho
+  | cons e es =>
+    obtain ⟨N, hN⟩ := runText_Fv VM.initSt Ref.initSt (e :: es) (by simp) hp atRest_initSt rel_initSt fuel
+    refine ⟨N, ?_⟩
+    have h := hN N (Nat.le_refl _)
+    unfold Ref.runProgram at ho
+    cases hres : Ref.evalBegin fuel (e :: es) 0 { Ref.initSt with trace := [] } with
+    | ok v rs' =>
+      rw [hres] at h
+      simp only [hres] at ho
+      obtain ⟨sf, d, hout, -⟩ := h
+      rw [hout]; exact ho
+    | err rs' =>
+      rw [hres] at h
+      simp only [hres] at ho
+      obtain ⟨sf, d, hout⟩ := h
+      rw [hout]; exact ho
+    | timeout => simp only [hres] at ho; cases ho
+    | brk l rs' => rw [hres] at h; exact h.elim
+    | cont l rs' => rw [hres] at h; exact h.elim
+
+/-! ### Non-vacuity: concrete Fv programs, one that yields a value, one that fails -/
+
+/-- `(def a 1) (set a (cond (and a (or false 0)) 5 a)) (def b "x") (cond b (set c a) 9)` -/
+def demoFv : List Expr :=
+  [.def_ "a" (.int 1),
+   .set_ "a" (.cond [(.and_ [.sym "a", .or_ [.bool false, .int 0]], .int 5)] (.sym "a")),
+   .def_ "b" (.str "x"),
+   .cond [(.sym "b", .set_ "c" (.sym "a"))] (.int 9)]
+
+/-- `(def a 1) (begin (def a "s") 2)`: re-binding `a` with another type is an error -/
+def demoFvErr : List Expr := [.def_ "a" (.int 1), .begin_ [.def_ "a" (.str "s"), .int 2]]
+
+example : FvList demoFv = true := by decide
+example : FvList demoFvErr = true := by decide
+
+/-- class of a reference result: a value, an error, or neither -/
+def refClass : Ref.R Val → Option (Option Val)
+  | .ok v _ => some (some v)
+  | .err _ => some none
+  | _ => none
+
+/-- the reference evaluator computes 1 for `demoFv` … -/
+theorem demoFv_ref : refClass (Ref.evalBegin 14 demoFv 0 { Ref.initSt with trace := [] }) = some (some (intOfLit 1)) := by
+  have tr1 : truthy (intOfLit 1) = true := by decide
+  have tr0 : truthy (intOfLit 0) = false := by decide
+  have trb : ∀ b : Bool, truthy (.bool b) = b := fun _ => rfl
+  have trs : ∀ s : String, truthy (.str s) = true := fun _ => rfl
+  simp [demoFv, Ref.evalBegin, Ref.eval, Ref.evalCond, Ref.evalAndOr, Ref.define, Ref.setVar, Ref.lookup,
+    Ref.lookupIn, Ref.initSt, Ref.assocSet, Ref.globalNames, coreBuiltins, refClass, tr1, tr0, trb,
+    trs, List.lookup]
+
+/-- … and an error for `demoFvErr` -/
+theorem demoFvErr_ref : refClass (Ref.evalBegin 6 demoFvErr 0 { Ref.initSt with trace := [] }) = some none := by
+  simp [demoFvErr, Ref.evalBegin, Ref.eval, Ref.define, Ref.setVar, Ref.initSt, Ref.assocSet, Ref.globalNames,
+    coreBuiltins, rebindOk, tyOf, intOfLit, refClass, List.lookup]
+
+/-- both are instances of `compile_correct_on_Fv` with a real outcome on the reference side -/
+example : ∃ fuel' o, obsOfRef (Ref.runProgram 14 demoFv Ref.initSt).1 = some o
+    ∧ obsOfVM (VM.runText fuel' demoFv VM.initSt).1 = some o := by
+  have h := demoFv_ref
+  cases hres : Ref.evalBegin 14 demoFv 0 { Ref.initSt with trace := [] } with
+  | ok v rs' =>
+    have ho : obsOfRef (Ref.runProgram 14 demoFv Ref.initSt).1 = some (.ok (pr rs'.heap v) rs'.trace) := by
+      unfold Ref.runProgram; simp only [hres]; rfl
+    obtain ⟨f, hf⟩ := compile_correct_on_Fv demoFv (by decide) (by decide) 14 _ ho
+    exact ⟨f, _, ho, hf⟩
+  | err rs' => rw [hres] at h; simp [refClass] at h
+  | timeout => rw [hres] at h; simp [refClass] at h
+  | brk l rs' => rw [hres] at h; simp [refClass] at h
+  | cont l rs' => rw [hres] at h; simp [refClass] at h
+
+example : ∃ fuel' tr, obsOfRef (Ref.runProgram 6 demoFvErr Ref.initSt).1 = some (.err tr)
+    ∧ obsOfVM (VM.runText fuel' demoFvErr VM.initSt).1 = some (.err tr) := by
+  have h := demoFvErr_ref
+  cases hres : Ref.evalBegin 6 demoFvErr 0 { Ref.initSt with trace := [] } with
+  | err rs' =>
+    have ho : obsOfRef (Ref.runProgram 6 demoFvErr Ref.initSt).1 = some (.err rs'.trace) := by
+      unfold Ref.runProgram; simp only [hres]; rfl
+    obtain ⟨f, hf⟩ := compile_correct_on_Fv demoFvErr (by decide) (by decide) 6 _ ho
+    exact ⟨f, _, ho, hf⟩
+  | ok v rs' => rw [hres] at h; simp [refClass] at h
+  | timeout => rw [hres] at h; simp [refClass] at h
+  | brk l rs' => rw [hres] at h; simp [refClass] at h
+  | cont l rs' => rw [hres] at h; simp [refClass] at h
+
 /-! ## What is proved of `CompileCorrect`, and what is missing -/
 
 /-- **The part of `CompileCorrect` that is NOT proved**: programs with at least one
-top-level form outside F0c — i.e. using symbols, `def`/`set`, `let`/`letseq`/`newScope`, calls
-(builtin or user), arrays, `for`/`break`/`continue`, `fn`/`defn`, or an empty `begin`. Held by
-the 3-way `eval` correspondence on every run, not by a theorem. -/
-def CompileCorrectOutsideF0c : Prop := CompileCorrectOn (fun p => F0cList p = false)
+top-level form outside Fv — i.e. using `let`/`letseq`/`newScope`, calls (builtin or user),
+array literals, `for`/`break`/`continue`, `fn`/`defn`, or an empty `begin`. Held by the 3-way
+`eval` correspondence on every run, not by a theorem. -/
+def CompileCorrectOutsideFv : Prop := CompileCorrectOn (fun p => FvList p = false)
 
 /-- `compile_correct_partial`: what is proved of the semantic statement.
 
-1. `CompileCorrect` restricted to F0c programs (execution half included: generator model +
-   VM model vs reference evaluator, all sizes and nestings) — `compile_correct_on_F0c`;
-2. the full `CompileCorrect` follows from its restriction to the programs outside F0c
-   (`CompileCorrectOutsideF0c`, the precise unproved remainder);
-3. the layout half for the forms outside F0c that have jump arithmetic (`for` loops:
-   `gen_for_layout`), and for `begin`/`cond`/`and`/`or` as before.
+1. `CompileCorrect` restricted to Fv programs — literals, symbols, `def`, `set`, `begin`,
+   `cond`, `and`, `or`, nested arbitrarily, values *and* errors, with their effects on the
+   global scope (execution half included: generator model + VM model vs reference evaluator,
+   all sizes and nestings) — `compile_correct_on_Fv`; for the effect-free sub-fragment F0c with
+   explicit fuel on both sides — `compile_correct_F0c`;
+2. the full `CompileCorrect` follows from its restriction to the programs outside Fv
+   (`CompileCorrectOutsideFv`, the precise unproved remainder);
+3. the layout half for `begin`/`cond`/`and`/`or` as before (and `gen_for_layout` for loops).
 
-MISSING (held by the `eval` correspondence only): `CompileCorrectOutsideF0c` — Stage C
-(symbols, `def`/`set` in the global scope), Stage D (`let`/`letseq`/`newScope`, builtin calls
-through `callExpr`: re-entrant `Run`), F1 (`for`/`break`/`continue`), F2 (closures, user calls,
-varargs, recursion), F3 (self tail calls, `map`/`apply`, lazy parameters). -/
+MISSING (held by the `eval` correspondence only): `CompileCorrectOutsideFv` — Stage D
+(`let`/`letseq`/`newScope`; builtin calls through `callExpr`: re-entrant `Run`), F1
+(`for`/`break`/`continue`), F2 (closures, user calls, varargs, recursion), F3 (self tail calls,
+`map`/`apply`, lazy parameters). -/
 theorem compile_correct_partial :
-    CompileCorrectOn (fun p => F0cList p = true)
-    ∧ (CompileCorrectOutsideF0c → CompileCorrect)
+    CompileCorrectOn (fun p => FvList p = true)
+    ∧ (CompileCorrectOutsideFv → CompileCorrect)
     ∧ (∀ cs : List (List Instr), (∀ c ∈ cs, c ≠ []) → asmBegin cs = (cs.intersperse [Instr.pop]).flatten)
     ∧ (∀ (arms : List (List Instr × List Instr)) (dflt : List Instr) (i : Nat), i < arms.length →
         ∃ pre, asmCond arms dflt = pre ++ asmCond (arms.drop i) dflt)
     ∧ (∀ (isOr : Bool) (cs : List (List Instr)) (i : Nat), i < cs.length →
         ∃ pre, asmSC isOr cs = pre ++ asmSC isOr (cs.drop i)) := by
-  refine ⟨compile_correct_on_F0c, fun hout p hwf => ?_, gen_begin_pops_between,
+  refine ⟨compile_correct_on_Fv, fun hout p hwf => ?_, gen_begin_pops_between,
     fun arms dflt i _ => asmCond_suffix arms dflt i, asmSC_suffix⟩
-  cases h : F0cList p with
-  | true => exact compile_correct_on_F0c p h hwf
+  cases h : FvList p with
+  | true => exact compile_correct_on_Fv p h hwf
   | false => exact hout p h hwf
 
 end ZygoVerif.C02
